@@ -17,9 +17,12 @@ func init() {
 	control(&Control{ID: "statsjoined-recv", Rule: "STATS-JOINED", File: "larking/grpc.go",
 		Old: "func (s *streamGRPC) RecvMsg(m interface{}) error {\n\ts.wg.Add(1)\n\tdefer s.wg.Done()\n", New: "func (s *streamGRPC) RecvMsg(m interface{}) error {\n",
 		Expect: "registered-before-events", Why: "RecvMsg reports InPayload without joining the WaitGroup"})
-	control(&Control{ID: "poolself-nil-after-put", Rule: "POOL-SELF-TERMINAL", File: "larking/compress.go",
-		Old: "\tif err == io.EOF {\n\t\tz.pool.Put(z)\n\t}\n\treturn n, err\n", New: "\tif err == io.EOF {\n\t\tz.pool.Put(z)\n\t\tif n > 0 {\n\t\t\terr = nil\n\t\t}\n\t}\n\treturn n, err\n",
-		Expect: "terminal-after-self-put", Why: "nil error after the reader went back to the pool"})
+	control(&Control{ID: "poolself-field-not-cleared", Rule: "POOL-SELF-TERMINAL", File: "larking/compress.go",
+		Old: "\t\tz.pool.Put(z.Reader)\n\t\tz.Reader = nil\n", New: "\t\tz.pool.Put(z.Reader)\n",
+		Expect: "field-cleared-after-put", Why: "pooled gzip.Reader stays reachable from the finished stream"})
+	control(&Control{ID: "poolself-unguarded-use", Rule: "POOL-SELF-TERMINAL", File: "larking/compress.go",
+		Old: "\tif z.Reader == nil {\n\t\treturn 0, io.EOF\n\t}\n", New: "",
+		Expect: "field-cleared-after-put", Why: "field used without the nil test"})
 	control(&Control{ID: "ows-semicolon", Rule: "OWS-BEFORE-SEP", File: "larking/negotiate.go",
 		Old: "\t\t\tspec.Q = 1.0\n\t\t\ts = skipSpace(s)\n", New: "\t\t\tspec.Q = 1.0\n", Expect: "head-test:\";\"", Why: "';' tested on unskipped input"})
 	control(&Control{ID: "limitbound-unclamped-length-with-error", Rule: "LIMIT-RETURN-BOUND", File: "larking/codec.go",
